@@ -463,6 +463,18 @@ def _abs(eng, a, kw, st, fr, k, node):
     return k(z3.If(x >= 0, x, -x), st)
 
 
+@lib("np.int32", "np.int64", "np.int16", "np.int8")
+def _np_int(eng, a, kw, st, fr, k, node):
+    """np.int32(x) of an integer: the same mathematical integer (machine width is not modelled - listed assumption)"""
+    v = a[0]
+    if _is_z3(v) and z3.is_int(v):
+        eng.assumptions.add("np.intNN(x) casts are the identity on mathematical integers (no wrap-around)")
+        return k(v, st)
+    if isinstance(v, int):
+        return k(z3.IntVal(v), st)
+    raise Unsupported("np.intNN of a non-integer")
+
+
 @lib("int")
 def _int(eng, a, kw, st, fr, k, node):
     v = a[0]
@@ -567,6 +579,17 @@ def _opq_method(name):
         f = z3.Function("method:" + name, *([V] * (len(vs) + 1)))
         return k(Opq(f(*vs)), st)
     return m
+
+
+@lib("sorted")
+def _sorted(eng, a, kw, st, fr, k, node):
+    """sorted(x) of an opaque collection: an uninterpreted function of x (a different value from x itself); with key= / reverse=
+    only a fresh value"""
+    if len(a) == 1 and isinstance(a[0], Opq) and not kw:
+        return k(Opq(z3.Function("fn:sorted", V, V)(a[0].t)), st)
+    if len(a) == 1 and isinstance(a[0], (list, tuple)) and not a[0]:
+        return k([], st)
+    return k(Opq(eng.fresh("sorted", "V")), st)
 
 
 @lib("tuple")
